@@ -19,10 +19,12 @@ pub struct UserDefinedTransformer {
 
 impl UserDefinedTransformer {
     fn transform(&self, keyword: &str, datum: Datum) -> Result<Datum, SchemeError> {
+        // forms created from the template belong to the source text of the macro use
+        let use_location = datum.location;
         for (pattern, template) in &self.rules {
             let mut substitutions = HashMap::new();
             if pattern.match_datum(&datum, 0, &self.literals, &mut substitutions)? {
-                let mut substituded = template.substitude(&substitutions)?;
+                let mut substituded = template.substitude(&substitutions, use_location)?;
                 if substituded.len() != 1 {
                     return located_error!(
                         SyntaxError::TransformOutMultipleDatum,
@@ -313,8 +315,9 @@ impl SyntaxTemplate {
     pub fn substitude(
         &self,
         substitutions: &HashMap<String, (Datum, Vec<Datum>)>,
+        use_location: Option<[u32; 2]>,
     ) -> Result<Vec<Datum>, SchemeError> {
-        let location = self.location;
+        let location = use_location.or(self.location);
         match &self.data {
             SyntaxTemplateBody::Pair(list) => {
                 let mut substituted_pair_items = vec![];
@@ -324,10 +327,12 @@ impl SyntaxTemplate {
                             SyntaxTemplate::substitute_template_element(
                                 &template_element,
                                 substitutions,
+                                use_location,
                             )?,
                         ),
                         PairIterItem::Improper(SyntaxTemplateElement(last, false)) => {
-                            substituted_pair_items.extend(last.substitude(substitutions)?)
+                            substituted_pair_items
+                                .extend(last.substitude(substitutions, use_location)?)
                         }
                         _ => {
                             return error!(SyntaxError::UnexpectedDatum(
@@ -348,6 +353,7 @@ impl SyntaxTemplate {
                     substituted_vec.extend(SyntaxTemplate::substitute_template_element(
                         sub_template_element,
                         substitutions,
+                        use_location,
                     )?)
                 }
                 Ok(vec![DatumBody::Vector(substituted_vec).locate(location)])
@@ -360,7 +366,7 @@ impl SyntaxTemplate {
                 Ok(vec![DatumBody::Primitive(p.clone()).locate(location)])
             }
             SyntaxTemplateBody::Ellipsis => {
-                located_error!(SyntaxError::UnexpectedTemplate(self.clone()), location)
+                located_error!(SyntaxError::UnexpectedTemplate(self.clone()), self.location)
             }
         }
     }
@@ -369,7 +375,9 @@ impl SyntaxTemplate {
         template: &SyntaxTemplate,
         substitutions: &HashMap<String, (Datum, Vec<Datum>)>,
         item_index: usize,
+        use_location: Option<[u32; 2]>,
     ) -> Result<Option<Datum>, SchemeError> {
+        let location = use_location.or(template.location);
         Ok(match &template.data {
             SyntaxTemplateBody::Pair(list) => {
                 let mut new_list_elements = Vec::new();
@@ -378,6 +386,7 @@ impl SyntaxTemplate {
                         &pair_item.get_inside().0,
                         substitutions,
                         item_index,
+                        use_location,
                     )? {
                         Some(sub_datum) => {
                             new_list_elements.push(pair_item.replace_inside(sub_datum))
@@ -389,18 +398,23 @@ impl SyntaxTemplate {
                     DatumBody::Pair(Box::new(GenericPair::from_pair_iter(
                         new_list_elements.into_iter(),
                     )?))
-                    .locate(template.location),
+                    .locate(location),
                 )
             }
             SyntaxTemplateBody::Vector(vec) => {
                 let mut new_vec = Vec::new();
                 for pair_item in vec.iter() {
-                    match Self::substitude_ellipsis_item(&pair_item.0, substitutions, item_index)? {
+                    match Self::substitude_ellipsis_item(
+                        &pair_item.0,
+                        substitutions,
+                        item_index,
+                        use_location,
+                    )? {
                         Some(sub_datum) => new_vec.push(sub_datum),
                         None => return Ok(None),
                     }
                 }
-                Some(DatumBody::Vector(new_vec).locate(template.location))
+                Some(DatumBody::Vector(new_vec).locate(location))
             }
             SyntaxTemplateBody::Identifier(var) => match substitutions.get(var) {
                 Some((_, vec)) => {
@@ -410,10 +424,10 @@ impl SyntaxTemplate {
                         vec.get(item_index).cloned()
                     }
                 }
-                None => Some(DatumBody::Symbol(var.clone()).locate(template.location)),
+                None => Some(DatumBody::Symbol(var.clone()).locate(location)),
             },
             SyntaxTemplateBody::Primitive(p) => {
-                Some(DatumBody::Primitive(p.clone()).locate(template.location))
+                Some(DatumBody::Primitive(p.clone()).locate(location))
             }
             SyntaxTemplateBody::Ellipsis => {
                 return located_error!(
@@ -427,14 +441,18 @@ impl SyntaxTemplate {
     fn substitute_template_element(
         template_element: &SyntaxTemplateElement,
         substitutions: &HashMap<String, (Datum, Vec<Datum>)>,
+        use_location: Option<[u32; 2]>,
     ) -> Result<Vec<Datum>, SchemeError> {
         match template_element {
             SyntaxTemplateElement(sub_template, true) => {
-                let mut result = sub_template.substitude(substitutions)?;
+                let mut result = sub_template.substitude(substitutions, use_location)?;
                 let mut suffix_item_index = 0;
-                while let Some(item) =
-                    Self::substitude_ellipsis_item(sub_template, substitutions, suffix_item_index)?
-                {
+                while let Some(item) = Self::substitude_ellipsis_item(
+                    sub_template,
+                    substitutions,
+                    suffix_item_index,
+                    use_location,
+                )? {
                     #[cfg(ruschm_verif)]
                     crate::verif_hooks::step()?;
                     suffix_item_index += 1;
@@ -443,7 +461,9 @@ impl SyntaxTemplate {
                 Ok(result)
             }
 
-            SyntaxTemplateElement(sub_template, false) => sub_template.substitude(substitutions),
+            SyntaxTemplateElement(sub_template, false) => {
+                sub_template.substitude(substitutions, use_location)
+            }
         }
     }
 }
